@@ -1,8 +1,9 @@
 import FxVerif.Model.C19
 import FxVerif.Model.Util
-/-! line-protocol driver for the C19 model: `lake env lean --run Driver/C19.lean < ops.txt` -/
+/-! line-protocol driver for the C19 model: `lake env lean --run Driver/C19.lean < ops.txt`
+(round 5: the extended protocol — every former line, plus `genesis` and `denom l base h₁ … hₙ`) -/
 open FxVerif FxVerif.Model.C19
 
-def step (s : State) (line : String) : State × String := stepLine s line
+def step (s : XState) (line : String) : XState × String := xstepLine s line
 
-def main : IO Unit := FxVerif.Util.runDriver step init
+def main : IO Unit := FxVerif.Util.runDriver step xinit
